@@ -740,6 +740,56 @@ def sqrt_boundary_rule(repo, rep, mod, q, param, witnesses, what):
         rep.holds('R-DOMAIN', key, where(f, f.node), 'no square root of %s receives a negative argument on the %d singular witnesses' % (q, len(witnesses)))
 
 
+
+def identity_flag_rule(repo, rep, modname):
+    """a parameter that the callee tests by IDENTITY (`flag is False`, `flag is None`) must be handed True / False / None themselves: the
+    result of a comparison is a bool only for Python numbers - for numpy scalars (an np.float64 taken from an array is a float) it is a
+    numpy.bool_, for which `is False` is never true, and the sign of a negative angle is lost.  One instance per call site that passes
+    such a parameter."""
+    m = repo.module(modname)
+    flags = {}            # (class or function name) -> set of identity-tested parameter names
+    for f in m.all_functions():
+        ps = set(p.name for p in f.params)
+        for n in ast.walk(f.node):
+            if isinstance(n, ast.Compare) and len(n.ops) == 1 and isinstance(n.ops[0], (ast.Is, ast.IsNot)) and isinstance(n.left, ast.Name) and n.left.id in ps \
+                    and isinstance(n.comparators[0], ast.Constant) and n.comparators[0].value in (True, False):
+                owner = f.cls.name if f.cls is not None and f.name == '__init__' else f.qualname
+                flags.setdefault(owner, {}).setdefault(n.left.id, [p.name for p in f.params if p.name != 'self'])
+    n_sites = 0
+    ordn = {}
+    for g in m.all_functions():
+        for c in sorted((x for x in ast.walk(g.node) if isinstance(x, ast.Call)), key=lambda x: (x.lineno, x.col_offset)):
+            if not isinstance(c, ast.Call):
+                continue
+            callee = c.func.id if isinstance(c.func, ast.Name) else (c.func.attr if isinstance(c.func, ast.Attribute) else None)
+            if callee not in flags:
+                continue
+            for pname, order in flags[callee].items():
+                arg = None
+                for kw in c.keywords:
+                    if kw.arg == pname:
+                        arg = kw.value
+                if arg is None and pname in order and order.index(pname) < len(c.args):
+                    arg = c.args[order.index(pname)]
+                if arg is None:
+                    continue
+                n_sites += 1
+                ordn[(g.qualname, callee, pname)] = ordn.get((g.qualname, callee, pname), 0) + 1
+                key = 'R-TYPE::%s::%s::%s(%s=)#%d' % (m.relpath, g.qualname, callee, pname, ordn[(g.qualname, callee, pname)])
+                literal = isinstance(arg, ast.Constant) and (arg.value is None or isinstance(arg.value, bool))
+                passed_on = isinstance(arg, ast.Name) or (isinstance(arg, ast.Attribute))
+                wrapped = isinstance(arg, ast.Call) and getattr(arg.func, 'id', '') == 'bool'
+                negated = isinstance(arg, ast.UnaryOp) and isinstance(arg.op, ast.Not)       # `not x` is always a real bool
+                if literal or wrapped or negated or passed_on:
+                    rep.holds('R-TYPE', key, where(g, c), '%s receives %s' % (pname, 'a literal' if literal else ('a real bool' if (wrapped or negated) else 'a flag handed on')))
+                else:
+                    rep.violated('R-TYPE', key, where(g, c), '%s(%s=%s): the callee tests `%s is False`, an identity test; `%s` is a numpy.bool_ when its operands are numpy scalars '
+                                 '(np.float64 is a float), and numpy.False_ is not False - the sign of a negative value is lost (DMSAngle(1, 30, 0) * np.float64(-2) gives +3 degrees)' % (
+                                     callee, pname, stmt_text(arg)[:30], pname, stmt_text(arg)[:30]), expected='positive=True / positive=False', actual=stmt_text(arg)[:40])
+    if n_sites == 0:
+        rep.undecided('R-TYPE', 'R-TYPE::%s::identity-flags' % m.relpath, '%s:1' % m.relpath, 'no call site passes an identity-tested flag')
+
+
 def tm_division_rules(repo, rep):
     """division rule for the projection routines (geo2grid, grid2geo, psfandgridconv) over the band of the projection, equator and central
     meridian included"""
